@@ -121,12 +121,72 @@ func findDispatches(c *Ctx, named *types.Named) []*progDispatch {
 	return out
 }
 
-// loopSignature: outer-to-inner labels (L, R, C, P) of the loops around the per-packet call of fn.
-func loopSignature(fn *ssa.Function) (sig string, where ssa.Instruction, ok bool) {
+// packetDims: if sc is a per-packet function (name ends in Packet, parameters named after the four
+// progression dimensions), the parameter index of each dimension.
+func packetDims(sc *ssa.Function) map[string]int {
+	if sc == nil || !strings.HasSuffix(sc.Name(), "Packet") || sc.Signature.Params().Len() < 4 {
+		return nil
+	}
+	dims := map[string]int{}
+	params := sc.Signature.Params()
+	off := len(sc.Params) - params.Len() // receiver
+	for i := 0; i < params.Len(); i++ {
+		n := strings.ToLower(params.At(i).Name())
+		var d string
+		switch {
+		case strings.HasPrefix(n, "layer"):
+			d = "L"
+		case strings.HasPrefix(n, "res"):
+			d = "R"
+		case strings.HasPrefix(n, "comp"):
+			d = "C"
+		case strings.HasPrefix(n, "precinct") && isIntBasic(params.At(i).Type()):
+			d = "P"
+		}
+		if d != "" {
+			if _, dup := dims[d]; !dup {
+				dims[d] = off + i
+			}
+		}
+	}
+	if len(dims) < 4 {
+		return nil
+	}
+	return dims
+}
+
+// loopNest: the loops around one per-packet call, seen from function fn: labels outermost first
+// (across the helpers on the way down), and for every dimension not yet bound to a loop the index
+// of the parameter of fn that carries it (-1: computed locally, e.g. looked up from a position).
+type loopNest struct {
+	labels     []string
+	unresolved map[string]int
+	site       ssa.Instruction
+}
+
+func stripConv(v ssa.Value) ssa.Value {
+	for {
+		switch x := v.(type) {
+		case *ssa.Convert:
+			v = x.X
+		case *ssa.ChangeType:
+			v = x.X
+		default:
+			return v
+		}
+	}
+}
+
+// loopNests enumerates the nests of the per-packet calls reachable from fn through static calls
+// (helpers that take some of the dimensions as parameters and loop over the others).
+func loopNests(fn *ssa.Function, depth int, visiting map[*ssa.Function]bool) []loopNest {
+	if depth > 3 || visiting[fn] || fn.Blocks == nil {
+		return nil
+	}
+	visiting[fn] = true
+	defer delete(visiting, fn)
 	loops := naturalLoops(fn)
-	var best ssa.CallInstruction
-	bestDepth := -1
-	var bestDims map[string]ssa.Value
+	var out []loopNest
 	for _, b := range fn.Blocks {
 		for _, ins := range b.Instrs {
 			call, isCall := ins.(ssa.CallInstruction)
@@ -134,73 +194,84 @@ func loopSignature(fn *ssa.Function) (sig string, where ssa.Instruction, ok bool
 				continue
 			}
 			sc := call.Common().StaticCallee()
-			if sc == nil || !strings.HasSuffix(sc.Name(), "Packet") || sc.Signature.Params().Len() < 4 {
+			if sc == nil || !load.InScope(sc) || len(call.Common().Args) != len(sc.Params) {
 				continue
 			}
-			dims := map[string]ssa.Value{}
-			params := sc.Signature.Params()
-			args := call.Common().Args
-			off := len(args) - params.Len()
-			for i := 0; i < params.Len(); i++ {
-				n := strings.ToLower(params.At(i).Name())
-				var d string
-				switch {
-				case strings.HasPrefix(n, "layer"):
-					d = "L"
-				case strings.HasPrefix(n, "res"):
-					d = "R"
-				case strings.HasPrefix(n, "comp"):
-					d = "C"
-				case strings.HasPrefix(n, "precinct") && isIntBasic(params.At(i).Type()):
-					d = "P"
-				}
-				if d != "" && off+i < len(args) {
-					dims[d] = args[off+i]
-				}
+			var inner []loopNest
+			if dims := packetDims(sc); dims != nil {
+				inner = []loopNest{{unresolved: dims, site: ins}}
+			} else {
+				inner = loopNests(sc, depth+1, visiting)
 			}
-			if len(dims) < 4 {
-				continue
-			}
-			depth := 0
-			for _, l := range loops {
-				if l.Blocks[b] {
-					depth++
+			for _, in := range inner {
+				vals := map[string]ssa.Value{}
+				for d, pi := range in.unresolved {
+					if pi >= 0 && pi < len(call.Common().Args) {
+						vals[d] = call.Common().Args[pi]
+					}
 				}
-			}
-			if depth > bestDepth {
-				best, bestDepth, bestDims = call, depth, dims
+				var encl []*natLoop
+				for _, l := range loops {
+					if l.Blocks[b] {
+						encl = append(encl, l)
+					}
+				}
+				sort.Slice(encl, func(i, j int) bool { return len(encl[i].Blocks) > len(encl[j].Blocks) })
+				used := map[string]bool{}
+				var labels []string
+				for _, l := range encl {
+					label := "?"
+					for _, d := range []string{"L", "R", "C", "P"} {
+						if v, open := vals[d]; open && !used[d] && directInduction(v, l) {
+							label = d
+							break
+						}
+					}
+					if label != "?" {
+						used[label] = true
+					}
+					labels = append(labels, label)
+				}
+				un := map[string]int{}
+				for d := range in.unresolved {
+					if used[d] {
+						continue
+					}
+					un[d] = -1
+					if v, ok := vals[d]; ok {
+						if pi := paramIndex(fn, stripConv(v)); pi >= 0 {
+							un[d] = pi
+						}
+					}
+				}
+				site := in.site
+				if depth > 0 || site == nil {
+					site = ins
+				}
+				out = append(out, loopNest{labels: append(labels, in.labels...), unresolved: un, site: in.site})
 			}
 		}
 	}
-	if best == nil {
+	return out
+}
+
+// loopSignature: outer-to-inner labels (L, R, C, P) of the loops around the per-packet call reached
+// from fn — in fn itself or split over helpers that receive the outer loop variables as parameters.
+func loopSignature(fn *ssa.Function) (sig string, where ssa.Instruction, ok bool) {
+	nests := loopNests(fn, 0, map[*ssa.Function]bool{})
+	if len(nests) == 0 {
 		return "", nil, false
 	}
-	// enclosing loops, outermost first
-	var encl []*natLoop
-	for _, l := range loops {
-		if l.Blocks[best.Block()] {
-			encl = append(encl, l)
+	best := nests[0]
+	for _, n := range nests[1:] {
+		if len(n.labels) > len(best.labels) {
+			best = n
 		}
 	}
-	sort.Slice(encl, func(i, j int) bool { return len(encl[i].Blocks) > len(encl[j].Blocks) })
-	var labels []string
+	labels := append([]string{}, best.labels...)
 	used := map[string]bool{}
-	for _, l := range encl {
-		label := ""
-		for _, d := range []string{"L", "R", "C", "P"} {
-			if used[d] {
-				continue
-			}
-			if directInduction(bestDims[d], l) {
-				label = d
-				break
-			}
-		}
-		if label == "" {
-			label = "?"
-		}
-		used[label] = true
-		labels = append(labels, label)
+	for _, l := range labels {
+		used[l] = true
 	}
 	// a single unlabeled loop is the one remaining dimension (position loops that look the precinct up)
 	var missing []string
@@ -223,7 +294,7 @@ func loopSignature(fn *ssa.Function) (sig string, where ssa.Instruction, ok bool
 		}
 		nq = 0
 	}
-	return strings.Join(labels, ""), best, nq == 0 && len(labels) == 4
+	return strings.Join(labels, ""), best.site, nq == 0 && len(labels) == 4
 }
 
 func isIntBasic(t types.Type) bool {
@@ -241,6 +312,10 @@ func directInduction(v ssa.Value, l *natLoop) bool {
 	case *ssa.Phi:
 		return x.Block() == l.Header
 	case *ssa.UnOp:
+		// a loop variable captured by a closure lives in a per-iteration cell: *p, p a header phi
+		if p, ok := x.X.(*ssa.Phi); ok && x.Op == token.MUL {
+			return p.Block() == l.Header
+		}
 		// range element: *(&s[i]) with i the header phi (+1)
 		if ia, ok := x.X.(*ssa.IndexAddr); ok {
 			for u := range backwardSlice(ia.Index, 20) {
@@ -375,47 +450,63 @@ func caseSignature(fs []*ssa.Function) (string, *ssa.Function, bool) {
 // loop index / parameter unmodified (Convert only).
 func (c *Ctx) tileIndexRule() int {
 	n := 0
-	for _, fn := range c.scopeFuncs() {
-		sinks := map[ssa.Value]bool{}
-		for _, b := range fn.Blocks {
-			for _, ins := range b.Instrs {
-				if call, ok := ins.(ssa.CallInstruction); ok {
-					if sc := call.Common().StaticCallee(); sc != nil && sc.String() == "encoding/binary.Write" && len(call.Common().Args) == 3 {
-						sinks[unwrapIface(call.Common().Args[0])] = true
+	scope := c.scopeFuncs()
+	// classify: where does the Isot value come from?
+	var classify func(fn *ssa.Function, v ssa.Value, depth int) (report.Status, string)
+	classify = func(fn *ssa.Function, v ssa.Value, depth int) (report.Status, string) {
+		v = stripConv(v)
+		switch x := v.(type) {
+		case *ssa.Parameter:
+			// a helper's parameter: the value is whatever the callers pass
+			if depth < 3 && fn.Object() != nil && !fn.Object().Exported() {
+				pi := paramIndex(fn, x)
+				sites := 0
+				for _, caller := range scope {
+					for _, b := range caller.Blocks {
+						for _, ins := range b.Instrs {
+							call, ok := ins.(ssa.CallInstruction)
+							if !ok || call.Common().StaticCallee() != fn || pi >= len(call.Common().Args) {
+								continue
+							}
+							sites++
+							if st, d := classify(caller, call.Common().Args[pi], depth+1); st != report.Discharged {
+								return st, d + " (passed to " + fn.Name() + " at " + c.P.Pos(ins.Pos()) + ")"
+							}
+						}
 					}
 				}
+				if sites > 0 {
+					return report.Discharged, "Isot is parameter " + x.Name() + ", and every one of the " + fmt.Sprint(sites) + " call site(s) passes a tile index unmodified"
+				}
 			}
+			return report.Discharged, "Isot is " + addrExpr(v) + " unmodified"
+		case *ssa.Phi:
+			return report.Discharged, "Isot is " + addrExpr(v) + " unmodified"
+		case *ssa.UnOp:
+			return report.Discharged, "Isot is " + addrExpr(x) + " unmodified"
+		case *ssa.Const:
+			return report.Violated, "Isot is the constant " + x.String() + ": every tile-part of a multi-tile image claims the same tile"
 		}
-		for s := range sinks {
+		return report.Violated, "Isot is computed (" + addrExpr(v) + ") instead of being the tile index: tiles are attributed to the wrong position"
+	}
+	for _, fn := range scope {
+		if !producesOutput(fn) {
+			continue
+		}
+		for _, s := range outputSinks(fn) {
 			ws, _ := sinkWritesOf(fn, s)
 			for i, w := range ws {
 				if w.what != "marker" || w.marker != mSOT || i+2 >= len(ws) {
 					continue
 				}
-				if !producesOutput(fn) {
-					continue
-				}
 				n++
 				isot := ws[i+2]
-				v := isot.val
-				for {
-					if cv, ok := v.(*ssa.Convert); ok {
-						v = cv.X
-						continue
-					}
-					break
+				if isot.val == nil || !isot.size.equal(linConst(2)) {
+					c.add("FLOWS-TILEIDX", fn, "Isot of SOT", report.Violated, c.P.Pos(isot.ins.Pos()), "the SOT marker and Lsot are not followed by a 16-bit Isot field")
+					continue
 				}
-				construct := "Isot of SOT"
-				switch x := v.(type) {
-				case *ssa.Parameter, *ssa.Phi:
-					c.add("FLOWS-TILEIDX", fn, construct, report.Discharged, c.P.Pos(isot.ins.Pos()), "Isot is "+addrExpr(v)+" unmodified")
-				case *ssa.UnOp:
-					c.add("FLOWS-TILEIDX", fn, construct, report.Discharged, c.P.Pos(isot.ins.Pos()), "Isot is "+addrExpr(x)+" unmodified")
-				case *ssa.Const:
-					c.add("FLOWS-TILEIDX", fn, construct, report.Violated, c.P.Pos(isot.ins.Pos()), "Isot is the constant "+x.String()+": every tile-part of a multi-tile image claims the same tile")
-				default:
-					c.add("FLOWS-TILEIDX", fn, construct, report.Violated, c.P.Pos(isot.ins.Pos()), "Isot is computed ("+addrExpr(v)+") instead of being the tile index: tiles are attributed to the wrong position")
-				}
+				st, detail := classify(fn, isot.val, 0)
+				c.add("FLOWS-TILEIDX", fn, "Isot of SOT", st, c.P.Pos(isot.ins.Pos()), detail)
 			}
 		}
 	}
